@@ -247,11 +247,14 @@ Definition region (cur : list N) : list N :=
   | [] => cur                         (* no white space left: the buffer up to the end of the file *)
   | _ :: before => rev before
   end.
+(* ParseNumber returns str.data() + processed_characters_count: the cursor advances by the number of bytes the
+   converter consumed *)
+Definition advance (r rest : list N) : cursor := skipn (length r - length rest) r.
 Definition read_float (cur : cursor) : res (fval * cursor) :=
   do r <- skip_spaces kSpaces cur;
   match string_to_float r with
-  | Some (FNaN, rest) => if beq (region r) s_NaN then Ok (FNaN, rest) else Err ParseNumber
-  | Some (v, rest) => Ok (v, rest)
+  | Some (FNaN, rest) => if beq (region r) s_NaN then Ok (FNaN, advance r rest) else Err ParseNumber
+  | Some (v, rest) => Ok (v, advance r rest)
   | None => if beq (region r) s_nan then Ok (FNaN, r) else Err ParseNumber
   end.
 
